@@ -28,8 +28,17 @@ func (dv *Router) advertSyncSendInterest() (err error) {
 }
 
 func (dv *Router) advertSyncSendInterestImpl(prefix enc.Name) (err error) {
-	// SVS v2 Sync Interest
-	syncName := append(prefix, enc.NewVersionComponent(2))
+	// SVS v2 Sync Interest. The prefix belongs to the shared configuration and
+	// this function runs on several goroutines (heartbeat, change notification):
+	// build the name on storage of its own instead of appending in place.
+	syncName := make(enc.Name, 0, len(prefix)+1)
+	syncName = append(syncName, prefix...)
+	syncName = append(syncName, enc.NewVersionComponent(2))
+
+	// The sequence number is shared with advertSyncNotifyNew
+	dv.mutex.Lock()
+	seqNo := dv.advertSyncSeq
+	dv.mutex.Unlock()
 
 	// Sync Interest parameters for SVS
 	cfg := &ndn.InterestConfig{
@@ -45,7 +54,7 @@ func (dv *Router) advertSyncSendInterestImpl(prefix enc.Name) (err error) {
 		StateVector: &svs_2024.StateVector{
 			Entries: []*svs_2024.StateVectorEntry{{
 				NodeId: dv.config.RouterName(),
-				SeqNo:  dv.advertSyncSeq,
+				SeqNo:  seqNo,
 			}},
 		},
 	}
